@@ -84,9 +84,11 @@ Fixpoint chk (v : version) (s : stmt) (A : list akey) : option (list akey) :=
   | SHalf f idx => if idx_agreed A idx then Some (aadd (AInt f idx) A) else None
   | SRef f idx => if idx_agreed A idx then Some (aadd (AInt f idx) A) else None
   | SStrRef _ findex idx =>
-    if Z.ltb (vfile v) V20_1_0_3 then None
+    if Z.ltb (vfile v) V20_1_0_3 then Some A    (* inline string: nothing new is agreed; needs the writer's flag (Exec.warn) down *)
     else if idx_agreed A idx then Some (aadd (AInt findex idx) A) else None
   | SBytes f idx n => if idx_agreed A idx && reads_ok A n then Some A else None
+  | SBytesVec f idx => if idx_agreed A idx && amem (ASize f idx) A then Some A else None
+  | SSyncLocal x p => if full_width p then Some (aadd (ALocal x) (akill x A)) else None
   | SResize f idx n => if idx_agreed A idx && reads_ok A n then Some (aadd (ASize f idx) A) else None
   | SLocal x p e => if reads_ok A e then Some (aadd (ALocal x) (akill x A)) else None
   | SAssign f idx p e => if idx_agreed A idx && reads_ok A e then Some (aadd (AInt f idx) A) else None
